@@ -1036,7 +1036,12 @@ fn srv_random(rng: &mut Rng) -> SrvCase {
         reply,
         n,
         dis: rng.chance(1, 4),
-        md: vec![],
+        // now and then the handler writes `grpc-encoding` into its own response metadata
+        md: if rng.chance(1, 40) {
+            (0..rng.range(1, 2)).map(|_| rng.pick(&["gzip", "deflate", "zstd", "identity", "snappy"]).as_bytes().to_vec()).collect()
+        } else {
+            vec![]
+        },
         rmsg: message(rng),
     }
 }
@@ -1101,7 +1106,17 @@ fn cli_random(rng: &mut Rng) -> String {
         1 => Some(rng.range(1, 16) as i32),
         _ => Some(0),
     };
-    cli_line(shape, &snd, &acc, &[], &[], rng.below(4) as usize, &message(rng), &enc, hs, &frames, ts)
+    // now and then the caller's own metadata carries the negotiation headers
+    let forged = |rng: &mut Rng| -> Vec<Vec<u8>> {
+        if rng.chance(1, 40) {
+            (0..rng.range(1, 2)).map(|_| rng.pick(&["gzip", "deflate", "zstd", "identity", "gzip,zstd", "snappy"]).as_bytes().to_vec()).collect()
+        } else {
+            vec![]
+        }
+    };
+    let ue = forged(rng);
+    let ua = forged(rng);
+    cli_line(shape, &snd, &acc, &ue, &ua, rng.below(4) as usize, &message(rng), &enc, hs, &frames, ts)
 }
 
 pub fn generate(tier: &str, rng: &mut Rng) -> Vec<String> {
@@ -1116,6 +1131,25 @@ pub fn generate(tier: &str, rng: &mut Rng) -> Vec<String> {
             out.push(c.line());
             c.route = "c";
             out.push(c.line());
+        }
+    }
+
+    // corpus: the negotiation headers supplied by the application itself (known findings
+    // C05-F1..F3: they pass through when the corresponding setting is not configured)
+    for shape in SHAPES {
+        for snd in ["-", "g"] {
+            for md in ["gzip", "zstd"] {
+                let mut c = SrvCase::plain(shape, "-", snd);
+                c.accv = vec![b"gzip".to_vec()];
+                c.md = vec![md.as_bytes().to_vec()];
+                out.push(c.line());
+            }
+        }
+        let fr = vec![(0u8, 'r', b"\0resp".to_vec())];
+        for (snd, acc) in [("-", "-"), ("g", "-"), ("-", "g"), ("z", "dz")] {
+            out.push(cli_line(shape, snd, acc, &[b"gzip".to_vec()], &[], 1, b"\0req", &[], None, &fr, Some(0)));
+            out.push(cli_line(shape, snd, acc, &[], &[b"gzip,identity".to_vec()], 1, b"\0req", &[], None, &fr, Some(0)));
+            out.push(cli_line(shape, snd, acc, &[b"zstd".to_vec(), b"gzip".to_vec()], &[b"deflate".to_vec()], 2, b"\0req", &[], None, &fr, Some(0)));
         }
     }
 
